@@ -230,6 +230,13 @@ def main(a):
                 x = orch.exec_plan(l1, rep["ops"], ENV_A, args=wargs)
                 y = orch.exec_plan(TWIN, rep["ops"], ENV_Z, args=wargs)
                 got = "uninitialised_read" if x["hash"] != y["hash"] else "OK"
+            elif rep.get("engine") == "clisim-valgrind":
+                r = L2Runner(l1, l2, manifest, "rp")
+                try:
+                    res = r.run(rep["ops"], binary=plain, wrapper=[shutil.which("valgrind"), "-q", "--error-exitcode=75"], timeout=900)
+                    got = "valgrind" if res.get("rc") == 75 else "OK"
+                finally:
+                    r.close()
             elif rep.get("engine") == "clisim-l2":
                 r = L2Runner(l1, l2, manifest, "rp")
                 try:
